@@ -231,8 +231,16 @@ def explore_handlers(r, rnd, n, stdlib):
                         nref = len([x for x in refs if not (x["range"]["start"]["line"] == args[1] and x["range"]["start"]["character"] == args[2]
                                                             and lsp.uri_to_path(x["uri"]) == q)])    # the handler lists the declaration too
                         # incoming calls of the call hierarchy prepared on that definition: one per reference
+                        own = [d for d in defs.get((q, args[1] + 1), []) if d["start"] == args[2]]
+                        for loc in as_list(srv.implementation(q, args[1], args[2])):
+                            stats["implementation_on_name"] += 1
+                            if not own or lsp.uri_to_path(loc["uri"]) != q or loc["range"]["start"]["line"] + 1 not in (own[0]["line"], own[0]["yield"]):
+                                fail("go-to-implementation on a definition's name does not stay in that definition",
+                                     at={"file": os.path.relpath(q, root), "line": args[1], "character": args[2]}, location=loc)
                         for it in as_list(srv.prepare_call_hierarchy(q, args[1], args[2])):
-                            if it["selectionRange"]["start"]["line"] != args[1]:
+                            if it["selectionRange"]["start"]["line"] != args[1] or lsp.uri_to_path(it["uri"]) != q or (own and it["name"] != own[0]["name"]):
+                                fail("call-hierarchy preparation on a definition's name names another definition",
+                                     at={"file": os.path.relpath(q, root), "line": args[1], "character": args[2]}, item=it)
                                 continue
                             inc = srv.incoming_calls(it) or []
                             stats["incoming"] += 1
